@@ -24,6 +24,8 @@ from pyvc import verify, source  # noqa: E402
 from pyvc.source import Unsupported, ShapeMismatch  # noqa: E402
 
 REPO = os.environ.get("PYVC_REPO", "/repo")
+# where evidence/ and replays/ are written (default: /verif itself; tools/allseeds.sh redirects it for checks run on scratch copies)
+OUT = os.environ.get("PYVC_OUT", VERIF)
 VENV_PY = "/venv/bin/python"
 
 
@@ -78,9 +80,10 @@ def main(argv):
     prop, tier = argv[0], (argv[1] if len(argv) > 1 else os.environ.get("VERIF_TIER", "quick"))
     seed = int(os.environ.get("VERIF_SEED", "0") or 0)
     t0 = time.time()
-    evidence_path = os.path.join(VERIF, "evidence", "%s.json" % prop)
+    evidence_path = os.path.join(OUT, "evidence", "%s.json" % prop)
+    os.makedirs(os.path.join(OUT, "evidence"), exist_ok=True)
     os.makedirs(os.path.dirname(evidence_path), exist_ok=True)
-    os.makedirs(os.path.join(VERIF, "replays"), exist_ok=True)
+    os.makedirs(os.path.join(OUT, "replays"), exist_ok=True)
     try:
         rc, ev = check(prop, tier, seed)
     except Exception:
@@ -99,6 +102,8 @@ def check(prop, tier, seed):
     source.clear_cache()
     eng = verify.new_engine(cset)
     timeout_s = 20 if tier == "quick" else 90
+    # a contract file may ask for larger per-obligation budgets (CPU seconds) when its queries are known to be slow
+    timeout_s = int(getattr(cset.pymod, "QUICK_TIMEOUT" if tier == "quick" else "THOROUGH_TIMEOUT", timeout_s))
     jobs = int(os.environ.get("PYVC_JOBS", "12"))
     functions = []
     not_extracted = []
@@ -351,7 +356,7 @@ def write_replay(prop, label, result, smt_text, concrete):
         data["failing_input"] = concrete
     else:
         data["note"] = "no-failing-input-found: the verifier could not discharge this obligation and the bounded search found no concrete input"
-    with open(os.path.join(VERIF, rel), "w") as fh:
+    with open(os.path.join(OUT, rel), "w") as fh:
         json.dump(data, fh, indent=1, sort_keys=True, default=str)
     return rel
 
